@@ -467,7 +467,13 @@ func merge(m, r *Result) {
 		m.Note("%s", n)
 	}
 	for k, v := range r.Extra {
-		// numeric extras are summed, everything else: last wins
+		// numeric extras are summed (maxima are kept for keys naming a longest/largest), everything else: last wins
+		if f, ok := v.(float64); ok && (strings.Contains(k, "longest") || strings.Contains(k, "max")) {
+			if o, ok2 := m.Extra[k].(float64); !ok2 || f > o {
+				m.Extra[k] = f
+			}
+			continue
+		}
 		if f, ok := v.(float64); ok {
 			if o, ok2 := m.Extra[k].(float64); ok2 {
 				m.Extra[k] = o + f
